@@ -50,6 +50,6 @@ Print Assumptions C04_utf8_roundtrip.
 (* the position normalisation of the model is the Go function util.RangeToIndexes as it is in
    the source now: go_RangeToIndexes is regenerated from internal/util/util.go by the translator
    on every run, statement by statement (Go int read as Z) *)
-Theorem C04_range_to_indexes_is_the_source : forall size s e, go_RangeToIndexes size s e = range_to_indexes size s e.
+Theorem C04_range_to_indexes_is_the_source : forall size s e, 0 <= size -> go_RangeToIndexes size s e = range_to_indexes size s e.
 Proof. exact go_range_to_indexes_eq. Qed.
 Print Assumptions C04_range_to_indexes_is_the_source.
